@@ -7,7 +7,7 @@ from hypothesis import strategies as st
 
 from .. import hist, wire
 from ..engine import ok, require
-from ..simkit import ADDRS, MCAST, ClientRec, Sim, cfg, install_random, make_sd, sd_bytes, sent_entries, timings
+from ..simkit import ADDRS, MCAST, ClientRec, Sim, cfg, install_random, late, make_sd, sd_bytes, sent_entries, timings
 from ..vloop import RES
 from .c19 import ref_match
 
@@ -15,7 +15,7 @@ PID = "C13"
 RULE = (
     "exhaustive: every script of bounded length over {offer A ttl 1 / infinite, stop-offer A, offer B} x timing prefixes relative to the next library timer (find round or TTL deadline) for two watched filters; random: cases = 1..4 watched filters (wildcards in instance/major/minor) registered before start, a timing configuration "
     "(initial-delay window from {0,0.01,0.1,1}, 0..4 repetitions, base delay from {0.01,0.05,0.2}, find TTL), a drawn "
-    "initial-delay fraction, and a script of offers (TTL 1/3/infinite), stop-offers and waits from 2 sources for services "
+    "initial-delay fraction, timings passed to the constructor or assigned to the protocol object's Timings afterwards, and a script of offers (TTL 1/3/infinite), stop-offers (each with no or one of two endpoint options) and waits from 2 sources for services "
     "matching any subset of the filters (or none), each step placed by delay or relative to pending library timers (the "
     "find task's next round and TTL deadlines: -4RES, -RES/4, +RES/4, +4RES, halfway). non-trivial = an offer within "
     "4 RES of a round, or a partial subset found at a round, or an expiry / stop-offer between rounds; distinct = distinct case JSON"
@@ -25,8 +25,9 @@ ASSUMPTIONS = [
     "a filter counts as found at a round iff a matching offer is live there; an offer that arrives, expires or is withdrawn within RES of the round instant is simultaneous (both outcomes accepted for the filters it matches)",
     "filters are registered before start and never removed (quantifier)",
 ]
-BUDGET = {"quick": {"examples": 8000, "shrink": 300}, "thorough": {"examples": 480000, "shrink": 2000}}
+BUDGET = {"quick": {"examples": 24000, "shrink": 300}, "thorough": {"examples": 480000, "shrink": 2000}}
 INF = 0xFFFFFF
+EPS = [[], [["10.0.0.2", 3000, 17]], [["10.0.0.2", 3001, 6]]]
 WI, WM, WN = 0xFFFF, 0xFF, 0xFFFFFFFF
 SERVICES = [(0x1000, 0x0101, 1, 0x10000), (0x1000, 0x0102, 1, 0x10000), (0x1000, 0x0101, 2, 0x10005), (0x2000, 0x0101, 1, 0x10000), (0x3000, 0x0707, 7, 0x70007)]
 
@@ -49,7 +50,8 @@ def _step(draw):
     op = draw(st.sampled_from(["offer", "offer", "offer", "stop", "wait"]))
     s = {"op": op, "when": draw(when_st)}
     if op != "wait":
-        s.update(src=draw(st.integers(0, 1)), s=draw(st.integers(0, len(SERVICES) - 1)))
+        # opt: the endpoint option the entry carries (a StopOffer need not repeat the options of the offer it withdraws)
+        s.update(src=draw(st.integers(0, 1)), s=draw(st.integers(0, len(SERVICES) - 1)), opt=draw(st.integers(0, 2)))
     if op == "offer":
         s["ttl"] = draw(st.sampled_from([1, 1, 3, INF]))
     return s
@@ -62,7 +64,7 @@ def _case(draw):
     pre = draw(st.lists(_step(), max_size=2))
     return {"filters": filters, "imin": a, "imax": b, "reps": draw(st.integers(0, 4)), "base": draw(st.sampled_from([0.01, 0.05, 0.2])),
             "fttl": draw(st.sampled_from([3, 1, 0xFFFFFF])), "fr": draw(st.sampled_from([0.0, 0.25, 0.5, 1.0])), "pre": pre,
-            "steps": draw(st.lists(_step(), max_size=10))}
+            "steps": draw(st.lists(_step(), max_size=10)), "late": draw(st.booleans())}
 
 
 def strategy(tier):
@@ -126,10 +128,12 @@ def run_case(case):
     with Sim() as sim:
         stub = install_random([case.get("fr", 0.5)])
         tm = timings(INITIAL_DELAY_MIN=imin, INITIAL_DELAY_MAX=imax, REPETITIONS_MAX=reps, REPETITIONS_BASE_DELAY=base, FIND_TTL=fttl)
-        prot = make_sd(sim, tm)
+        tm0, apply_timings = late(tm, bool(case.get("late")))
+        prot = make_sd(sim, tm0)
         log = []
         for n, f in enumerate(filters):
             prot.discovery.watch_service(cfg.Service(*f), ClientRec(sim, log, f"L{n}"))
+        apply_timings()
         sess = {}
         intervals = {}   # (src, key) -> list of [start, end]  (end None = still live / infinite)
 
@@ -156,6 +160,7 @@ def run_case(case):
             else:
                 close(p, now)
                 e = {"t": "stop", "svc": key[0], "inst": key[1], "major": key[2], "minor": key[3]}
+            e["eps"] = EPS[s.get("opt", 0) % len(EPS)]
             prot.datagram_received(sd_bytes([e], sid, reboot=True), src, False)
 
         hist.drive(sim, case.get("pre", [])[:2], execute)
